@@ -62,7 +62,9 @@ func (c *capture) take() string {
 
 var numberRE = regexp.MustCompile(`[+-]?[0-9]+(\.[0-9]+)?([eE][+-]?[0-9]+)?|NaN|[+-]?Inf`)
 
-var glyphSets = [][]string{{"ж", "ѣ", "ψ", "ʘ"}, {"ξ", "ƕ", "ȣ", "ʭ"}}
+// two relabellings of the template letters a<b<c<d; both are in increasing
+// code-point order, so a scripted stream selects corresponding characters
+var glyphSets = [][]string{{"ʘ", "ψ", "ж", "ѣ"}, {"ƕ", "ȣ", "ʭ", "ξ"}}
 
 // relabel maps a,b,c,d (the template letters) to the glyphs of set k.
 func relabel(s string, k int) string {
